@@ -314,9 +314,15 @@ pub fn panic_sig(msg: &str) -> String {
 pub trait Property {
     fn id(&self) -> &'static str;
     fn level(&self) -> &'static str;
-    /// per-case wall cap in ms (hang detection)
-    fn case_cap_ms(&self, _tier: Tier) -> u64 {
-        10_000
+    /// per-case wall cap in ms (hang detection): the slowest legitimate cases (enumerating a
+    /// clause-dense M9 model with restarts after every conflict and a nogood database that forgets
+    /// everything) take about 10 s on an idle machine in the thorough tier, well under 1 s in quick
+    fn case_cap_ms(&self, tier: Tier) -> u64 {
+        if tier.quick() {
+            30_000
+        } else {
+            180_000
+        }
     }
     /// Enumerate all cases, calling `ctl.case` for each.
     fn run(&self, ctl: &mut Ctl);
@@ -378,7 +384,7 @@ pub fn worker_main(prop: &dyn Property, args: &[String]) -> i32 {
         let _ = libc::prctl(libc::PR_SET_PDEATHSIG, libc::SIGKILL);
     }
     let t0 = Instant::now();
-    let cap = prop.case_cap_ms(tier);
+    let cap = std::env::var("PV_CASE_CAP_MS").ok().and_then(|v| v.parse().ok()).unwrap_or_else(|| prop.case_cap_ms(tier));
     {
         let t0 = t0;
         let _ = std::thread::spawn(move || loop {
